@@ -167,6 +167,34 @@ func init() {
 			}
 			return nil
 		},
+		// sync.Cond under the cooperative scheduler: Wait parks the goroutine until a Signal or
+		// Broadcast on the same Cond (L is released for the duration: mutexes are only observed
+		// in event mode, where Cond is not supported).
+		"(*sync.Cond).Wait": func(ex *Exec, fn *ssa.Function, a []Value) Value {
+			p := a[0].(*PtrVal)
+			if ex.evOn {
+				ex.unsupported("sync.Cond in event mode")
+			}
+			ex.condWaiters[p.cell] = append(ex.condWaiters[p.cell], ex.curG)
+			ex.block()
+			return nil
+		},
+		"(*sync.Cond).Broadcast": func(ex *Exec, fn *ssa.Function, a []Value) Value {
+			p := a[0].(*PtrVal)
+			for _, g := range ex.condWaiters[p.cell] {
+				g.blocked = false
+			}
+			delete(ex.condWaiters, p.cell)
+			return nil
+		},
+		"(*sync.Cond).Signal": func(ex *Exec, fn *ssa.Function, a []Value) Value {
+			p := a[0].(*PtrVal)
+			if ws := ex.condWaiters[p.cell]; len(ws) > 0 {
+				ws[0].blocked = false
+				ex.condWaiters[p.cell] = ws[1:]
+			}
+			return nil
+		},
 		"(*sync.WaitGroup).Add":   noop,
 		"(*sync.WaitGroup).Done":  noop,
 		"(*sync.WaitGroup).Wait":  noop,
